@@ -288,7 +288,7 @@ def time_shift(z, /, shift, crop=False):
     x = type(z).like(z, shifted)
 
     if crop:
-        x = x[start:len(x) + stop]
+        x = x[start:max(start, len(x) + stop)]
 
     return x
 
